@@ -372,7 +372,7 @@ func init() {
 		if err != nil {
 			return err
 		}
-		fmt.Println(c1Shrink(string(b), 25*time.Minute))
+		fmt.Println(c1Shrink(string(b), 12*time.Minute))
 		return nil
 	})
 }
